@@ -76,9 +76,34 @@ fn judge(run: &ScriptRun, tm: &[Timing], poll_us: &[u64], strict_prompt: bool, o
                 break;
             }
         }
-        // (C) carousel gaps (only beyond the configured number of transfers, and without trigger interference)
-        if let (Some(c), None) = (t.carousel, t.trigger) {
+        // (C) carousel gaps (only beyond the configured number of transfers). A trigger_transfer_at executed while the
+        // object is idle legitimately starts ONE transfer early (the first one after the call); a trigger executed
+        // while the object is being transferred is documented as "no action is taken": every gap is judged then.
+        let exempt_start: Option<usize> = match t.trigger {
+            None => None,
+            Some(_) => {
+                let op = run.ops.iter().find(|o| matches!(o.op, Op::Trigger(k, _) if k == i) && o.ok);
+                match op {
+                    None => None,
+                    Some(o) => {
+                        let (op_t, op_k) = (us(o.t), o.pkt_index);
+                        let after_op = |k: usize, at: i128| at > op_t || (at == op_t && k >= op_k);
+                        let transferring_at_op = starts.iter().zip(0..).any(|((k, at), n)| !after_op(*k, *at) && stops.get(n).map(|(sk, sat)| after_op(*sk, *sat)).unwrap_or(true));
+                        if transferring_at_op {
+                            states.push(util::fnv("trigger_while_transferring"));
+                            None
+                        } else {
+                            starts.iter().position(|(k, at)| after_op(*k, *at))
+                        }
+                    }
+                }
+            }
+        };
+        if let Some(c) = t.carousel {
             for n in 1..starts.len() {
+                if Some(n) == exempt_start {
+                    continue;
+                }
                 // flute's carousel cycle consists of max_transfer_count back-to-back transfers
                 // (the counter is reset when a cycle starts): the gap applies between cycles
                 if n % obj.max_transfer_count.max(1) as usize != 0 {
